@@ -119,9 +119,10 @@ def _slice_native(body, argn, depth=0):
     if _can_exit(st): out.append(('stop',)); break
   return out
 
-# natives whose obligation FAILS on the pinned tree and is a listed finding (known_findings.json D27): they are generated only in the `findings`
-# variant of the unit, so that the main unit is the residual that holds; any OTHER native that fails is a violation
-FINDING_NATIVES = ['ListCollect', 'TupleCollect', 'IterZip', 'IterChain']
+# natives whose obligation FAILS on the tree and is a listed finding would be generated only in the `findings` variant of the unit, so that the
+# main unit is the residual that holds.  None since D27 was repaired (List.collect / Tuple.collect / Iter.zip / Iter.chain now declare their
+# iterator arguments as ParameterKind::Enumerator): every native is in the main unit
+FINDING_NATIVES = []
 
 def _index_slice(body, argn):
   """-> list of (var, [ops]) : for every `let V = ARGS[K].to_num();` at top level, the top-level statements up to the first `V as usize` cast that
